@@ -8,6 +8,7 @@ import NdcubeModel.Model.Table
 import NdcubeModel.Model.Fits
 import NdcubeModel.Model.Uncert
 import NdcubeModel.Model.Coords
+import NdcubeModel.Model.ExtraCoords
 
 /-!
 # Line-protocol driver
@@ -556,6 +557,74 @@ def opWorldCoords (j : Json) : R Json := do
       Json.arr #[listJson natJson g.1, listJson natJson g.2]) groups),
     ("world", Json.arr perWorld.toArray), ("selection", sel)]
 
+/-! ## op `slice_chain` (C02, C03): extra-coords / global-coords bookkeeping over a history -/
+
+structure ChainState where
+  shape : List Nat
+  w : LLWcs Sym
+  names : List Nat                 -- base world axis of every current world axis
+  wcsDropped : List (Nat × Sym)
+  ec : ExtraCoordsM
+  gc : GlobalCoordsM
+
+def chainSlice (st : ChainState) (items : List Item) : Except Err ChainState := do
+  let its ← normItems st.shape items
+  let axes ← applyAxes st.shape its
+  let w' ← slicedWcs st.w its
+  let wk := worldKeep st.w.corr st.w.worldDim (pixelKeep its.reverse)
+  let dr := (droppedWorld st.w its).map fun (p : Nat × Sym) => (st.names.getD p.1 0, p.2)
+  pure { st with shape := resultShape axes, w := w', names := selectIdx wk st.names,
+                 wcsDropped := st.wcsDropped ++ dr, ec := st.ec.getitem its }
+
+def chainStep (st : ChainState) (j : Json) : R (ChainState × Json) := do
+  match optField j "items" with
+  | some its => do
+    let items ← asList asItem its
+    match chainSlice st items with
+    | .ok st' => pure (st', Json.mkObj [("ok", Json.bool true)])
+    | .error e => pure (st, errJson e)
+  | none =>
+    match optField j "add" with
+    | some nm => do
+      let name ← asStr nm
+      let ptype ← field j "ptype" >>= asStr
+      let valid ← field j "valid" >>= asBool
+      match st.gc.add name ptype (fun _ => valid) with
+      | .ok g => pure ({ st with gc := g }, Json.mkObj [("ok", Json.bool true)])
+      | .error e => pure (st, errJson e)
+    | none => do
+      let name ← field j "remove" >>= asStr
+      match st.gc.remove name with
+      | .ok g => pure ({ st with gc := g }, Json.mkObj [("ok", Json.bool true)])
+      | .error e => pure (st, errJson e)
+
+def opSliceChain (j : Json) : R Json := do
+  let shape ← field j "shape" >>= asList asNat
+  let w ← field j "wcs" >>= asWcs
+  let luts ← field j "luts" >>= asList fun l => do
+    let axes ← field l "axes" >>= asList asNat
+    let id ← field l "id" >>= asNat
+    let sep ← field l "sep" >>= asBool
+    pure ({ axes := axes, id := id, comps := List.range axes.length, sep := sep } : Lut)
+  let steps ← field j "steps" >>= asArr
+  let init : ChainState := { shape := shape, w := w, names := List.range w.worldDim, wcsDropped := [],
+                             ec := { luts := luts, dropped := [] }, gc := { internal := [] } }
+  let (st, outs) ← steps.foldlM (fun (acc : ChainState × List Json) s => do
+      let (st', o) ← chainStep acc.1 s
+      pure (st', acc.2 ++ [o])) (init, [])
+  pure <| Json.mkObj [
+    ("steps", Json.arr outs.toArray),
+    ("shape", listJson natJson st.shape),
+    ("luts", listJson (fun (l : Lut) => Json.mkObj [("axes", listJson natJson l.axes), ("id", natJson l.id),
+        ("comps", listJson natJson l.comps)]) st.ec.luts),
+    ("ecDropped", listJson natJson st.ec.dropped),
+    ("ecDroppedComps", listJson (fun (p : Nat × Nat) => Json.arr #[natJson p.1, natJson p.2]) st.ec.droppedComps),
+    ("mapping", listJson natJson (st.ec.mapping st.shape.length)),
+    ("worldKeep", listJson natJson st.names),
+    ("wcsDropped", listJson (fun (p : Nat × Sym) =>
+        Json.mkObj [("axis", natJson p.1), ("value", symJson p.2)]) st.wcsDropped),
+    ("internal", listJson (fun (p : String × String) => Json.arr #[.str p.1, .str p.2]) st.gc.internal)]
+
 def dispatch (j : Json) : R Json := do
   let op ← field j "op" >>= asStr
   match op with
@@ -574,6 +643,7 @@ def dispatch (j : Json) : R Json := do
   | "unwrap" => opUnwrap j
   | "uncert" => opUncert j
   | "world_coords" => opWorldCoords j
+  | "slice_chain" => opSliceChain j
   | _ => .error s!"unknown op {op}"
 
 def handleLine (line : String) : String :=
